@@ -412,27 +412,27 @@ def literal_program(lits):
 
 
 def literal_from_trace(trace):
-    """The literal text the counterexample put into the harness buffer `c14_text` and its length `c14_n`."""
+    """The literal text the counterexample put into the harness buffer `c14_text` and its length `c14_n`
+    (last assignment to each element before the call of primitive_load)."""
     chars, n = {}, None
     for s in trace or []:
+        if s.get('stepType') == 'function-call' and ((s.get('function') or {}).get('displayName') == 'primitive_load'):
+            break
         if s.get('stepType') != 'assignment':
             continue
         lhs = s.get('lhs') or ''
         m = re.fullmatch(r'c14_text\[(\d+)l?\]', lhs)
         v = s.get('value') or {}
         if m and v.get('binary'):
-            chars.setdefault(int(m.group(1)), int(v['binary'].replace(' ', ''), 2))
-        elif lhs == 'c14_text' and v.get('elements'):
-            for e in v['elements']:
-                b = (e.get('value') or {}).get('binary')
-                if b is not None:
-                    chars.setdefault(int(e['index']), int(b.replace(' ', ''), 2))
-        elif lhs == 'c14_n' and n is None and v.get('binary'):
+            chars[int(m.group(1))] = int(v['binary'].replace(' ', ''), 2)
+        elif lhs == 'c14_n' and v.get('binary'):
             n = int(v['binary'].replace(' ', ''), 2)
-    if n is None or any(i not in chars for i in range(n + 1)):
+    if not n or any(i not in chars for i in range(n + 1)):
         return None
-    text = ''.join(chr(chars[i] & 0x7f) for i in range(n))
-    follow = chr(chars[n] & 0x7f) if chars[n] else ''
+    if any(not (32 <= chars[i] < 127) for i in range(n)):
+        return None
+    text = ''.join(chr(chars[i]) for i in range(n))
+    follow = chr(chars[n]) if 32 <= chars[n] < 127 and chars[n] not in (34, 92) else ''
     return text, follow
 
 
